@@ -59,10 +59,14 @@ class C14Spec(explore.Spec):
         out.append({"version": "2.2", "persistence": "json", "cb": "record", "relpath": True, "depth": 3 if tier == "quick" else 5})
         # the application lets traffic in before it calls start_persistence() (also in a later life, on an existing file)
         out += [{"version": "2.2", "persistence": fmt, "cb": "record", "defer_start": True, "depth": 5 if tier == "quick" else 6} for fmt in ("json", "pickle")]
+        # the id range is exhausted (node 254 is known): an id request that cannot be served is one more message kind
+        out += [{"version": v, "persistence": fmt, "cb": "record", "focus": "ids-exhausted", "depth": 5} for fmt in ("json", "pickle") for v in (("2.2",) if tier == "quick" else ("1.4", "2.2"))]
         return out
 
     def alphabet(self, cfg):
         v = cfg["version"]
+        if cfg.get("focus") == "ids-exhausted":
+            return [alpha.rx(f"254;255;0;0;17;{v}"), alpha.rx("254;255;3;0;0;57"), alpha.rx("254;255;3;0;0;58"), alpha.rx("255;255;3;0;3;"), ("tick",)]
         if cfg.get("defer_start"):
             return alpha.events(v, ["PA", "CA0", "SA0", "BAT", "PB", "IDR"]) + [("tick",), ("restart",), ("startp",)]
         evs = alpha.events(v, NAMES)
@@ -377,7 +381,7 @@ class AsyncPersistWorld:
         from .c15 import AsyncRun
 
         self.cfg = cfg
-        self.run = AsyncRun(cfg["persistence"])
+        self.run = AsyncRun(cfg["persistence"], kind=cfg.get("kind", "serial"))
         self.gw = self.run.gw
         self.dead = None
         self.started = False
@@ -466,7 +470,7 @@ class C14AsyncSpec(explore.Spec):
     has_at_state = True
 
     def configs(self, tier):
-        return [{"version": "2.2", "persistence": fmt, "flavour": "async"} for fmt in ("json", "pickle")]
+        return [{"version": "2.2", "persistence": fmt, "flavour": "async"} for fmt in ("json", "pickle")] + [{"version": "2.2", "persistence": "json", "flavour": "async", "kind": "tcp"}]
 
     def make_world(self, cfg):
         return AsyncPersistWorld(cfg)
